@@ -20,6 +20,10 @@ const (
 	dbEnvVarPrefix     = "dm_pg_db_"
 )
 
+// paramNameChars lists the characters used by parameter names and flags
+// ("c", "b", "a", "sp", "dif", "V", "S"...): separators may not be chosen among them.
+const paramNameChars = "SVabcdfilmprs"
+
 func containsSep(val string) bool {
 	return strings.Contains(val, itemSep) || strings.Contains(val, kvSep)
 }
@@ -290,7 +294,8 @@ func setSeparators(paramsStruct interface{}) error {
 	if err != nil {
 		return err
 	}
-	invalidSeps, err := mergeAndUniqifyRunes(stringVals...)
+	// separators must be absent from values, and from parameter names and flags as well
+	invalidSeps, err := mergeAndUniqifyRunes(append(stringVals, paramNameChars)...)
 	if err != nil {
 		return err
 	}
